@@ -668,6 +668,44 @@ pub(crate) fn allocate_registers(ops: &[Op]) -> Result<Vec<AllocatedAbstractOp>,
         })
     }
 
+    #[cfg(fuellabs_sway_verif)]
+    if crate::verif::regalloc_hook_installed() {
+        let mut label_to_index = HashMap::new();
+        for (idx, op) in updated_ops.iter().enumerate() {
+            if let Either::Right(crate::asm_lang::ControlFlowOp::Label(op_label)) = op.opcode {
+                label_to_index.insert(op_label, idx);
+            }
+        }
+        let regs_to_strings = |regs: BTreeSet<&VirtualRegister>| -> Vec<String> {
+            regs.into_iter().map(|r| r.to_string()).collect()
+        };
+        let mut mapping = vec![];
+        for status in &pool.registers {
+            for v in &status.used_by {
+                mapping.push((v.to_string(), status.reg.to_string()));
+            }
+        }
+        crate::verif::regalloc_observe(crate::verif::RegallocRecord {
+            ops: updated_ops.iter().map(|op| op.to_string()).collect(),
+            comments: updated_ops.iter().map(|op| op.comment.clone()).collect(),
+            defs: updated_ops
+                .iter()
+                .map(|op| regs_to_strings(op.def_registers()))
+                .collect(),
+            uses: updated_ops
+                .iter()
+                .map(|op| regs_to_strings(op.use_registers()))
+                .collect(),
+            succs: updated_ops
+                .iter()
+                .enumerate()
+                .map(|(idx, op)| op.successors(idx, &updated_ops, &label_to_index))
+                .collect(),
+            mapping,
+            allocated_ops: buf.iter().map(|op| op.to_string()).collect(),
+        });
+    }
+
     Ok(buf)
 }
 
